@@ -135,6 +135,7 @@ package bcl
 //@ global one_rune_tokens_are_proper: forall r rune :: has(oneRuneTokens, r) ==> tERR < oneRuneTokens[r] && oneRuneTokens[r] < tMAX
 //@ global two_rune_tokens_are_proper: forall r rune :: has(twoRuneTokens, r) ==> tERR < twoRuneTokens[r].typ && twoRuneTokens[r].typ < tMAX
 //@ global keywords_are_proper: forall w string :: has(keywords, w) ==> tERR < keywords[w] && keywords[w] < tMAX
+//@ global [C20,C06] layout_characters_are_not_operator_tokens: !has(oneRuneTokens, 35) && !has(twoRuneTokens, 35) && !has(oneRuneTokens, 34) && !has(twoRuneTokens, 34) && (forall r rune :: is_space(r) ==> !has(oneRuneTokens, r) && !has(twoRuneTokens, r))
 //@ func init
 //@   ensures true
 //
@@ -149,6 +150,12 @@ package bcl
 //@   ensures [C11] tokens_only_added: g.ev_send_tokens >= old(g.ev_send_tokens)
 //@   modifies l.input, l.start, l.pos, l.posShift, l.width, lineCalc.lfs, g.ev_bytes_inputs, g.ev_closed_inputs, g.ev_val_inputs, g.bk, g.ev_send_tokens, g.ev_sent_tokens, g.lx_fin, g.lx_err
 //
+//@ func lexStart
+//@   implements stateFn
+//@   ensures [C20] white_space_starts_a_layout_run: old(l.posShift + l.pos) < len(g.ev_src_inputs) && is_space(runeAt(g.ev_src_inputs, old(l.posShift + l.pos))) ==> result == fn("lexSpace") && g.ev_send_tokens == old(g.ev_send_tokens)
+//@   ensures [C20] hash_starts_a_comment: old(l.posShift + l.pos) < len(g.ev_src_inputs) && runeAt(g.ev_src_inputs, old(l.posShift + l.pos)) == 35 ==> result == fn("lexLineComment") && g.ev_send_tokens == old(g.ev_send_tokens)
+//@   ensures [C20] quote_starts_a_string_literal: old(l.posShift + l.pos) < len(g.ev_src_inputs) && runeAt(g.ev_src_inputs, old(l.posShift + l.pos)) == 34 ==> result == fn("lexQuote") && g.ev_send_tokens == old(g.ev_send_tokens) && l.posShift + l.start == old(l.posShift + l.start)
+//@   use utf8_size, utf8_ascii
 //@ func lexSpace
 //@   implements stateFn
 //@   ensures [C20] white_space_produces_no_token: g.ev_send_tokens == old(g.ev_send_tokens) && result == fn("lexStart")
